@@ -352,6 +352,24 @@ def run(tier, seed):
         if harness_ok and rc_r != 0:
             harness_ok = False
             gout = out_r
+        # concurrent claims (real scheduler): strict rotation means every target is claimed exactly total/k times
+        crounds = 16 if tier == "quick" else 200
+        rc_c, out_c = go_test(work, ["common_test.go", "c09_race_test.go"],
+                              "^TestVerifC09ClaimRace$", {"VERIF_OUT": work.path("c09claim.jsonl"), "VERIF_ROUNDS": str(crounds)},
+                              timeout=900, synctest=False, extra_args=None) if harness_ok else (1, "")
+        claim_rows = read_jsonl(work.path("c09claim.jsonl")) if rc_c == 0 and os.path.exists(work.path("c09claim.jsonl")) else []
+        claim_bad = [r for r in claim_rows if any(c != r["expected_each"] for c in r["per_target"])]
+        res.coverage["claim_race_stress"] = {"rounds": len(claim_rows), "claims": sum(r["claims"] for r in claim_rows),
+                                             "rounds_with_exact_rotation": len(claim_rows) - len(claim_bad)}
+        if harness_ok and rc_c != 0:
+            harness_ok = False
+            gout = out_c
+        if claim_bad and not mon_fail:
+            res.violation("stress-claims", {"property": "C09", "what": "concurrent claims on one balancer are not handed out in strict rotation "
+                                            "(some target was claimed more often than another)",
+                                            "observed": claim_bad[:3], "seed": seed, "tier": tier,
+                                            "replay": "go test -run TestVerifC09ClaimRace (harness/c09_race_test.go), real scheduler"})
+            return res.finish()
         if race_bad and not mon_fail:
             res.violation("stress", {"property": "C09", "what": "after concurrently applied probe results the rotation is not the set of healthy targets",
                                      "observed": race_bad[:3], "seed": seed, "tier": tier,
